@@ -204,6 +204,9 @@ def rule_left_call_table(a: Analysis, rule_id: str, thorough: bool = False) -> R
         ("['t'] {'t'} a | b", b.choice(b.seq(b.box('Optional', T()), b.box('Closure', T()), A()), b.seq(Bc())), [0, 1]),
         ("x=['t'] a", b.seq(b.box('Named', b.box('Optional', T()), name='x'), A()), [0]),
         ("{a}", b.box('Closure', A()), [0]),
+        (">inc   with inc = a 't'   (a rule include is its rule's body)", Stub(Q['RuleInclude'], name='inc', _exp=b.seq(A(), T())), [0]),
+        (">inc b   with inc = ['t']", b.seq(Stub(Q['RuleInclude'], name='inc', _exp=b.seq(b.box('Optional', T()))), Bc()), [1]),
+        (">inc b   with inc = 't'", b.seq(Stub(Q['RuleInclude'], name='inc', _exp=b.seq(T())), Bc()), []),
     ]
     fn = a.p.func('tatsu.peg.leftrec.pegen._callable_rule_ids')
     # every expression term of depth <= 2 over {token, call a, call b} x {optional, closure, positive closure, group, lookahead}
